@@ -48,7 +48,7 @@ Reversing(c) == c \in {"rfind", "rfold", "rposition"}
 (* item type after each adapter *)
 TyAfter(ty, a) == CASE a.k = "enumerate" -> P(U, ty)
                     [] a.k = "zip" -> P(ty, U)
-                    [] a.k \in {"map", "filter_map", "flat_map"} -> U
+                    [] a.k \in {"map", "filter_map", "flat_map", "flatten"} -> U
                     [] OTHER -> ty
 RECURSIVE TyAt(_, _, _)
 TyAt(ty, chain, q) == IF q = 0 THEN ty ELSE TyAfter(TyAt(ty, chain, q - 1), chain[q])
@@ -59,7 +59,7 @@ TyEnd(chain) == TyAt(U, chain, Len(chain))
 Cap(de, es) == [de |-> de, es |-> es]
 CapAfter(c, a) ==
     CASE a.k \in {"map", "rev"} -> c
-      [] a.k \in {"filter", "filter_map", "flat_map"} -> Cap(c.de, FALSE)
+      [] a.k \in {"filter", "filter_map", "flat_map", "flatten"} -> Cap(c.de, FALSE)
       [] a.k \in {"enumerate", "take", "skip", "zip"} -> Cap(c.de /\ c.es, c.es)
       [] a.k \in {"take_while", "skip_while"} -> Cap(FALSE, FALSE)
 RECURSIVE CapAt(_, _)
@@ -97,6 +97,9 @@ StdStep(ty, s, a, revLater) ==
       [] a.k = "filter"     -> FilterSeq(ty, s)
       [] a.k = "filter_map" -> FilterMapSeq(ty, s)
       [] a.k = "flat_map"   -> FlatMapSeq(ty, s)
+      \* "flatten" stands for the two DSL tokens `map(|x| k..k+2), flatten()`: flatten needs iterable items, and the
+      \* ranges produced by that map are the only iterable items of the closure library
+      [] a.k = "flatten"    -> FlatMapSeq(ty, s)
       [] a.k = "map"        -> [q \in 1..Len(s) |-> Key(ty, s[q]) + a.n]
       [] a.k = "rev"        -> ReverseSeq(s)
       [] a.k = "skip"       -> SubSeq(s, a.n + 1, Len(s))
@@ -175,7 +178,7 @@ Pipe(chain, cons, q, ty, item, ctr) ==
             IF ctr[q] >= Len(ZipOther) THEN [ctr |-> ctr, outs |-> <<>>, brk |-> TRUE]
             ELSE LET o == IF BackAt(chain, cons, q) THEN ZipOther[Len(ZipOther) - ctr[q]] ELSE ZipOther[ctr[q] + 1] IN
                  Pipe(chain, cons, q + 1, nt, <<item, o>>, [ctr EXCEPT ![q] = ctr[q] + 1])
-      [] a.k = "flat_map" ->
+      [] a.k \in {"flat_map", "flatten"} ->
             \* nested loop over the inner iterator, pulled with the direction in force here
             LET inner == IF BackAt(chain, cons, q) THEN ReverseSeq(PairRange(kk)) ELSE PairRange(kk) IN
             PipeMany(chain, cons, q + 1, nt, inner, ctr)
